@@ -10,6 +10,7 @@ import LinVerif.Lemmas.C20Get
 import LinVerif.Lemmas.C20SeekList
 import LinVerif.Lemmas.C20Merge
 import LinVerif.Lemmas.C20Blocks
+import LinVerif.Lemmas.C20Collect
 import LinVerif.Lemmas.C20Bits
 import LinVerif.Lemmas.C20Louds
 import LinVerif.Lemmas.C20LoudsGet
@@ -411,6 +412,34 @@ theorem bucket_find_eq_union_filter (step : Bool) {ts : List Node} (hts : ∀ t 
   congr 2
   funext kv
   exact Bool.and_comm _ _
+
+/-- **`CollectKVs` (value → key) over any list of tries** (round 12): the two nested loops with the early
+`return` once the wanted set is empty write exactly what a scan of ALL pairs of the union without any early exit
+writes (`firstHits`: in enumeration order, the first pair carrying a wanted value), appended to what the
+caller's map held — for every list of built tries, every wanted set, both `Seek` variants -/
+theorem collect_eq_full_scan (step : Bool) {ts : List Node} (hts : ∀ t ∈ ts, Built t) (vs : List Nat)
+    (res : List (Nat × Key)) :
+    collectTries step ts vs res = res ++ firstHits (ts.flatMap iter) vs := by
+  rw [collectTries_spec, bucketPrefix_eq_filter step hts []]
+  congr 2
+  rw [List.filter_eq_self]
+  intro kv _
+  rfl
+
+/-- … hence, when every value sits on one pair only (ids are assigned once), `CollectKVs` answers exactly the
+inverse map restricted to the wanted values: `(v ↦ k)` is written iff `v` is wanted and `(k, v)` is a pair of
+the union; nothing is skipped because an earlier trie or an earlier pair already matched -/
+theorem collect_mem_iff (step : Bool) {ts : List Node} (hts : ∀ t ∈ ts, Built t)
+    (hv : (ts.flatMap iter).Pairwise (fun a b => a.2 ≠ b.2)) {vs : List Nat} (hnd : vs.Nodup) (v : Nat) (k : Key) :
+    (v, k) ∈ collectTries step ts vs [] ↔ (v ∈ vs ∧ (k, v) ∈ ts.flatMap iter) := by
+  rw [collect_eq_full_scan step hts, List.nil_append]
+  exact mem_firstHits _ vs hnd hv v k
+
+/-- non-vacuity on the bucket {"a"→1, "z"→3} + {"m"→2}: wanted {2, 3, 9} needs both tries; wanted {1} returns
+after the first pair; an empty wanted set writes nothing -/
+example : (buildAll [[([97], 1), ([122], 3)], [([109], 2)]]).map (fun ts => collectTries true ts [2, 3, 9] []) = some [(3, [122]), (2, [109])] := by decide
+example : (buildAll [[([97], 1), ([122], 3)], [([109], 2)]]).map (fun ts => collectTries true ts [1] []) = some [(1, [97])] := by decide
+example : (buildAll [[([97], 1), ([122], 3)], [([109], 2)]]).map (fun ts => collectTries true ts [] []) = some [] := by decide
 
 /-- **`Suggest` over any list of tries** = the first `limit` keys (at least one) with the prefix of
 the sorted union -/
@@ -1059,6 +1088,21 @@ theorem gen_bucket_builder_write_body : Generated.C20.bucketBuilderWriteStmts =
      "b.builder.Reset()", "b.builder.Build(kvs.Keys[start:end], kvs.IDs[start:end])",
      "size := b.builder.MarshalSize()", "binary.LittleEndian.PutUint32(b.sizeBuf[0:4], uint32(size))",
      "if err != nil {", "return err", "}", "if err != nil {", "return err", "}", "}", "return nil"] := rfl
+
+/-- `TrieBucket.CollectKVs` statement by statement (`collectPairs` / `collectTries`: test, write, remove, the
+early return AFTER the write, every trie in turn) -/
+theorem gen_collect_body : Generated.C20.collectKVsStmts =
+    ["range b.kvs {", "itr := kv.tree.NewPrefixIterator(nil)", "for ; itr.Valid(); {", "val := itr.Value()",
+     "if values.Contains(val) {", "result[val] = string(itr.Key())", "values.Remove(val)", "}",
+     "if values.IsEmpty() {", "return", "}", "itr.Next()", "}", "}"] := rfl
+
+/-- `TrieBucket.Unmarshal` statement by statement (`BucketWire.unmarshalLoop`: size word, `end := 4 + size`,
+the image `block[4:end]`, the entry's `buf = block[:end]`, advance by `end`) -/
+theorem gen_bucket_unmarshal_body : Generated.C20.bucketUnmarshalStmts =
+    ["for ; len(block) > 0; {", "size := binary.LittleEndian.Uint32(block[:4])", "tree := getTrieFn()",
+     "end := 4 + size", "err := tree.UnmarshalBinary(block[4:end])", "if err != nil {", "return err", "}",
+     "b.kvs = append(b.kvs, &trieEntry{tree: tree, buf: block[:end]})", "block = block[end:]", "}",
+     "return nil"] := rfl
 
 /-- `indexKVMerger.Merge`: unmarshal every block into one bucket, then `TrieBucket.Write` -/
 theorem gen_merger_calls : Generated.C20.mergerCalls =
